@@ -255,6 +255,13 @@ pub fn tx_alphabet(n: &Node, cfg: &AlphaCfg) -> Vec<(String, Transaction, bool)>
                 stake_doc_bytes(1, cur + 1, cur + 2, sc.1.coin_data.value.0),
             );
             acc.push((format!("stake-with-change({})", short(&sc.0)), t, true));
+            // the same transaction with a document that is not in order (amount one unit off; starting in the current epoch): accepted
+            // like an ordinary payment, registers nothing - a block that holds it is where a rebuilt node must not find a stake
+            // (seed C08-r12-1: from_block re-registered every Stake transaction of the block whose data parses)
+            for (name, doc) in [("stake-amount-off-by-one", stake_doc_bytes(1, cur + 1, cur + 2, sc.1.coin_data.value.0 + 1)), ("stake-starting-in-the-current-epoch", stake_doc_bytes(1, cur, cur + 2, sc.1.coin_data.value.0))] {
+                let t = tx_t(TxKind::Stake, vec![sc.0, mc.0], vec![out_t(sc.1.coin_data.value.0, Denom::Sym), out_t(mc.1.coin_data.value.0, Denom::Mel)], 0, doc);
+                acc.push((format!("{}({})", name, short(&sc.0)), t, true));
+            }
         }
     }
     if cfg.faucets && m.network == melstructs::NetID::Mainnet {
